@@ -207,6 +207,14 @@ Theorem exn_repair_in_source : clear_active_on_catch = true.
 Proof. exact ExnProofs.clear_active_generated. Qed.
 Print Assumptions exn_repair_in_source.
 
+(* Every exception kind the library defines is a Type object named like its own variable, and no
+   two kinds share a name: kinds are pairwise distinct under eq (Type objects compare by name), so a
+   filter naming one kind never accepts another. *)
+Theorem exn_kinds_named_and_distinct :
+  Forall (fun p => fst p = snd p) exn_kind_defs /\ NoDup (map snd exn_kind_defs).
+Proof. exact (ExnProofs.kinds_ok_dec exn_kind_defs). Qed.
+Print Assumptions exn_kinds_named_and_distinct.
+
 Theorem exn_macro_shapes :
   Forall (fun p => fst p = snd p)
     [(exn_macro_try, expected_macro_try); (exn_macro_catch, expected_macro_catch);
@@ -221,10 +229,12 @@ Theorem exn_source_shapes :
     [(exn_src_try, expected_src_try); (exn_src_try_end, expected_src_try_end);
      (exn_src_try_fail, expected_src_try_fail); (exn_src_throw, expected_src_throw);
      (exn_src_catch, expected_src_catch); (exn_src_buffer, expected_src_buffer);
-     (exn_src_len, expected_src_len); (exn_src_error, expected_src_error)].
+     (exn_src_len, expected_src_len); (exn_src_error, expected_src_error);
+     (exn_src_signal, expected_src_signal)].
 Proof. exact (ExnProofs.strings_equal_dec
     [(exn_src_try, expected_src_try); (exn_src_try_end, expected_src_try_end);
      (exn_src_try_fail, expected_src_try_fail); (exn_src_throw, expected_src_throw);
      (exn_src_catch, expected_src_catch); (exn_src_buffer, expected_src_buffer);
-     (exn_src_len, expected_src_len); (exn_src_error, expected_src_error)]). Qed.
+     (exn_src_len, expected_src_len); (exn_src_error, expected_src_error);
+     (exn_src_signal, expected_src_signal)]). Qed.
 Print Assumptions exn_source_shapes.
